@@ -162,9 +162,17 @@ class Contract:
 
 
 def contract(file, qual, props, **kw):
+    """Register a contract.  A *coarse* (assumed, 'may do anything') contract never replaces a real one, a real
+    one replaces a coarse one, two real contracts for one function are an error."""
     c = Contract(file, qual, props)
     for k, v in kw.items():
         setattr(c, k, v)
+    old = REGISTRY.get(c.key)
+    if old is not None:
+        if getattr(c, "coarse", False) and not getattr(old, "coarse", False):
+            return Contract(file, qual, props)      # detached: the real contract stays registered
+        if not getattr(c, "coarse", False) and not getattr(old, "coarse", False) and not getattr(old, "_placeholder", False):
+            raise RuntimeError("duplicate contract for %s" % c.key)
     REGISTRY[c.key] = c
     return c
 
